@@ -12,8 +12,8 @@
 //!   * one field only / no field at all; no enum value; interface implementing itself;
 //!     non-object union member (I, E, In); `@oneOf`.
 //! Decorations are deviations of one class whose budget depends on the number of definitions
-//! (`SmallCfg::budget`); field types are enumerated exhaustively (all combinations) while the
-//! type system has ≤ `exh_defs` definitions.
+//! (`SmallCfg::budget`). A second pass (`types_exhaustive`) enumerates *all* field-type
+//! combinations of the smallest type systems with no other decoration.
 
 use crate::ir::{arg, field, put};
 use agv_engine::explore::{Chooser, Class};
@@ -25,7 +25,8 @@ pub const NAMES: [&str; 8] = ["Query", "A", "B", "I", "J", "U", "E", "In"];
 #[derive(Clone, Copy, Debug)]
 pub struct SmallCfg {
     pub max_defs: usize,
-    pub exh_defs: usize,
+    /// all field-type combinations (Exhaustive class) instead of type decorations
+    pub types_exhaustive: bool,
     /// decoration budget for type systems with ≤3, 4 and 5 definitions (Dev(0), Dev(1), Dev(2))
     pub budget: [u32; 3],
 }
@@ -80,7 +81,7 @@ pub fn generate(ch: &mut Chooser, g: &SmallCfg) -> Schema {
     let menu = type_menu(&has);
     let args = arg_menu(&has);
     let deco = SmallCfg::class_for(defs.len());
-    let tclass = if defs.len() <= g.exh_defs { Class::Exhaustive } else { deco };
+    let tclass = if g.types_exhaustive { Class::Exhaustive } else { deco };
     let fnames = ["f", "g"];
 
     for name in &defs {
